@@ -2947,6 +2947,10 @@ def _put_slice_Call_ClassDef_keywords(
 
     nexprs = len(exprs)
 
+    if start == stop and exprs:  # pure insertion, there may be Starred exprs following keywords so position must be gotten from the location of the keyword we are inserting before, not just offset by number of exprs
+        arglikes = self._cached_arglikes()
+        start = stop = (next(i for i, a in enumerate(arglikes) if a is body[start]) if start < len(body) else len(arglikes)) - nexprs
+
     return _put_slice_Call_ClassDef_arglikes(self, code, start + nexprs, stop + nexprs, '_' + exprs_field, one, options,
                                              kw_only=True)
 
